@@ -62,5 +62,11 @@ pub mod fax {
     pub fn vpanic(Ghost(valid): Ghost<bool>) -> !
         requires !valid
     { panic!() }
+    // REJECT site of a `&mut self` method that carries an object invariant: the panic unwinds with the object in the state it
+    // has here, so that state must still satisfy the invariant ("no object ever holds an out-of-domain parameter")
+    #[verifier::external_body]
+    pub fn vpanic_inv(Ghost(valid): Ghost<bool>, Ghost(inv): Ghost<bool>) -> !
+        requires !valid, inv
+    { panic!() }
     }
 }
